@@ -23,7 +23,8 @@ CONSTANTS C0 = %(c0)d
   Dts <- %(dts)s
   MaxNow = %(maxnow)d
   DumpEdges = TRUE
-INVARIANTS TypeOK CapacityOK KeysDistinct MemOK
+INVARIANTS TypeOK CapacityOK KeysDistinct MemOK LawAddThenGet LawDelThenGet LawGetKeepsSet LawAddPurge LawLimitPurge
+PROPERTY Refines
 CHECK_DEADLOCK FALSE
 '''
 EDGE_CONFIGS = {
@@ -115,10 +116,12 @@ def gen_history(rnd, c0, nops):
     return cmds
 
 
-def report(ctx, lines, scripts, rej, what):
-    for i in rej[:5]:
-        n = adtb.first_bad_event(ctx, TRACE, CFG_P, lines[i], 'c51-min')
-        ev = lines[i]['ev'][n - 1] if n else {}
+def report(ctx, lines, scripts, rej, reached, what):
+    for i in rej:
+        if len(ctx.violations) >= 5:
+            break
+        n = reached.get(i)
+        ev = lines[i]['ev'][n - 1] if n and n <= len(lines[i]['ev']) else {}
         cls = {'kind': 'abort' if ev.get('e') == 'Abort' else 'history', 'op': ev.get('e')}
         if ev.get('ub'):
             cls['kind'] = 'ub'
@@ -130,12 +133,9 @@ def run(ctx):
     exe = ucheck.build_like_test(ctx, 'clpmap', 'testClpMap', ['u_clpmap.cc', 'uhelp.cc'])
     c0 = adtb.driver_query(exe)['c0']
     ctx.log('driver built; per-entry overhead c0 = %d' % c0)
-    # 1. design step: the spec over tiny constants (invariants, laws, I => P)
-    mcs = ['MC_ClpMap_cap.cfg', 'MC_ClpMap_ttl.cfg'] + (['MC_ClpMap.cfg'] if ctx.thorough else [])
-    for c in mcs:
-        r = vlib.tlc_must_pass(ctx, MC, os.path.join(SPEC, c))
-        ctx.log('TLC %s: %d distinct states, %d transitions' % (c, r.distinct, r.generated))
-    # 2. T1
+    # 1+2. design step and T1 in one TLC run per configuration: the run that prints the edges also checks the invariants,
+    # the laws of the reference functions and I => P (MC_ClpMap_{cap,ttl}.cfg / MC_ClpMap.cfg are the same runs without
+    # edge printing, with sizeof-independent C0 = 104); a failure there is a machinery error.
     lines, scripts = t1(ctx, exe, c0, ['cap', 'ttl'] + (['all'] if ctx.thorough else []))
     n_t1 = len(lines)
     # 3. T2
@@ -158,12 +158,11 @@ def run(ctx):
     ctx.cov['adds_purging'] = sum(1 for l in lines for a, b in zip(l['ev'], l['ev'][1:]) if b['e'] == 'Add' and b['ret'] and b['n'] <= a['n'] - 1)
     ctx.cov['adds_rejected'] = sum(1 for l in lines for e in l['ev'] if e['e'] == 'Add' and not e['ret'])
     # 4. TLC decides: P-layer (violation), I-layer (drift)
-    chunk = 1500 if not ctx.thorough else 3000
-    rejP = adtb.validate(ctx, TRACE, CFG_P, lines, 'c51-P', chunk=chunk)
-    rejI = adtb.validate(ctx, TRACE, CFG_I, lines, 'c51-I', chunk=chunk, count=False)
+    rejP, reached = adtb.validate(ctx, TRACE, CFG_P, lines, 'c51-P')
+    rejI, _ = adtb.validate(ctx, TRACE, CFG_I, lines, 'c51-I', count=False)
     ctx.log('TLC validated %d histories (%d edge replays, %d random): P-rejected %d, I-rejected %d' % (
         len(lines), n_t1, len(hs), len(rejP), len(rejI)))
-    report(ctx, lines, scripts, rejP, 'ClpMap')
+    report(ctx, lines, scripts, rejP, reached, 'ClpMap')
     for i in rejI:
         if i not in rejP and len(ctx.drift) < 5:
             ctx.drift.append('history %d (%s ...) is not a behaviour of ClpMapImpl.tla (I-layer)' % (i, ' '.join(scripts[i][:6])))
